@@ -60,7 +60,12 @@ impl<F: Fn(u64) -> usize> Iterator for FindChangePoints<F> {
             if new_val != self.prev_value {
                 break;
             }
-            step *= 2;
+            // If the step cannot be doubled there is no change point
+            // within reach: stop instead of overflowing
+            step = match step.checked_mul(2) {
+                Some(step) => step,
+                None => return None,
+            };
         }
 
         // Binary search in the last exponential step to find exact change point
